@@ -10,6 +10,7 @@ use crate::{
 use crate::actor::socket::KrpcSocket;
 
 #[derive(Debug)]
+#[cfg_attr(mainline_verif, derive(Clone))]
 /// Once an [super::IterativeQuery] is done, or if a previous cached one was a available,
 /// we can store data at the closest nodes using this PutQuery, that keeps track of
 /// acknowledging nodes, and or errors.
